@@ -256,12 +256,14 @@ func (c01) Generate(r *sim.Rand, tier string) *sim.Scenario {
 		maxOps, maxDepth = 50, 60
 	}
 	wide := false
-	pWide, pDeep := 0.003, 0.003
+	pWide, pDeep, pChain := 0.003, 0.003, 0.0004
 	switch os.Getenv("QV_C01_FLAVOUR") { // soak aid: force a flavour
 	case "wide":
 		pWide = 1
 	case "deep":
 		pWide, pDeep = 0, 1
+	case "chain":
+		pWide, pDeep, pChain = 0, 0, 1
 	}
 	if r.Bool(pWide) {
 		wide = true
@@ -287,6 +289,15 @@ func (c01) Generate(r *sim.Rand, tier string) *sim.Scenario {
 		// step budget and the presence / shape oracles
 		sc.Cfg["deep"] = 1
 		g.o = genOpts{MaxElems: 6, MaxRank: 2, MaxDim: 3, Linear: true, PSynth: 0.1, PTracked: 1}
+	}
+	chain := 0
+	if !wide && sc.Cfg["deep"] != 1 && r.Bool(pChain) {
+		// a very long chain of scalar operations (a recurrence unrolled over
+		// thousands of steps): depth far beyond any fixed recursion or walk limit
+		chain = r.Range(10050, 13000)
+		mode, linear, nclients, maxOps = 5, true, 1, 1
+		sc.Cfg["deep"] = 1
+		g.o = genOpts{MaxElems: 1, MaxRank: 0, MaxDim: 1, Linear: true, PSynth: 0, PTracked: 1}
 	}
 	// size swarm: now and then long dimensions / many concat operands / rank 5
 	switch r.Intn(8) {
@@ -327,6 +338,16 @@ func (c01) Generate(r *sim.Rand, tier string) *sim.Scenario {
 	for c := 0; c < nclients; c++ {
 		g.o.Client = c
 		start := g.shared[r.Intn(len(g.shared))]
+		if chain > 0 {
+			x := start
+			for i := 0; i < chain; i++ {
+				y, ok := g.unary(c, x, true)
+				if !ok {
+					break
+				}
+				x = y
+			}
+		}
 		switch mode {
 		case 1, 6: // chain of diamonds
 			k := r.Range(1, maxDepth)
@@ -380,6 +401,32 @@ func (c01) Generate(r *sim.Rand, tier string) *sim.Scenario {
 					ys = append(ys, y)
 				}
 			}
+			if wide && len(ys) >= 70 && len(src.Shape) >= 1 && r.Bool(0.5) {
+				// half of the wide graphs: the consumers are first joined by Concat
+				// lists of 65-130 operands each (then reduced along the concat dimension)
+				var joined []avail
+				for len(ys) > 0 {
+					k := r.Range(65, 130)
+					if k > len(ys) || len(ys)-k < 20 {
+						k = len(ys)
+					}
+					st := sim.Step{C: c, Op: "concat", I: []int{0}, Out: g.ids.New()}
+					for _, y := range ys[:k] {
+						st.In = append(st.In, y.ID)
+					}
+					ys = ys[k:]
+					cat, ok := g.try(c, []sim.Step{st})
+					if !ok {
+						break
+					}
+					red, ok := g.try(c, []sim.Step{{C: c, Op: "sumalong", In: []int{cat.ID}, I: []int{0}, Out: g.ids.New()}})
+					if !ok {
+						break
+					}
+					joined = append(joined, red)
+				}
+				ys = joined
+			}
 			for wide && len(ys) > 1 {
 				var next []avail
 				for i := 0; i+1 < len(ys); i += 2 {
@@ -407,6 +454,9 @@ func (c01) Generate(r *sim.Rand, tier string) *sim.Scenario {
 		nops := r.Range(1, maxOps)
 		if structured {
 			nops = r.Range(0, maxOps/3)
+		}
+		if chain > 0 {
+			nops = 0
 		}
 		for k, fails := 0, 0; k < nops && fails < 60; {
 			av := g.avail(c)
